@@ -267,9 +267,14 @@ def from_defect(d):
     return m
 
 
+_INT_LOC = [False]  # also build Location positions in the integer flavour under test
+
+
 def mk_loc(loc):
     c = _bt()
     f, l, s, d = loc
+    if _INT_LOC[0]:
+        f, l = _cv(f), _cv(l)
     return c["L"](f, l, c["REV"] if s else c["FWD"], to_defect(d))
 
 
@@ -281,12 +286,62 @@ def mk_annot(feats):
     return _bt()["bs"].Annotation([mk_feature(k, locs) for k, locs in feats])
 
 
+# Dimension-audit hooks: the families at the end of this file re-run the checks above with another
+# flavour of sequence object / of integer arguments.  None = plain NucleotideSequence / Python int.
+_FLAV = [None]
+_INT = [None]
+GEN_BASE = 0x100  # symbols of the GeneralSequence alphabets: chr(GEN_BASE + code)
+SEQ_FLAVOURS = ["neg_stride_view", "strided_view", "ambiguous_forced", "protein", "general256", "general257",
+                "general300"]
+INT_FLAVOURS = ["int64", "int32", "int8", "uint8", "uint64"]
+
+
+def _gen_alphabet(size):
+    c = _bt()
+    key = "alph%d" % size
+    if key not in c:
+        c[key] = c["bs"].Alphabet([chr(GEN_BASE + i) for i in range(size)])
+    return c[key]
+
+
 def mk_seq(s):
-    return _bt()["bs"].NucleotideSequence(s)
+    bs = _bt()["bs"]
+    fl = _FLAV[0]
+    if fl is None:
+        return bs.NucleotideSequence(s)
+    if fl == "neg_stride_view":  # code array is a negative-stride view of another sequence's code
+        return bs.NucleotideSequence(s[::-1]).reverse(copy=False)
+    if fl == "strided_view":  # every second symbol of a longer sequence: non-contiguous code array
+        if not s:
+            return bs.NucleotideSequence(s)
+        return bs.NucleotideSequence("".join(ch + s[0] for ch in s))[::2]
+    if fl == "ambiguous_forced":
+        return bs.NucleotideSequence(s, ambiguous=True)
+    if fl == "protein":
+        return bs.ProteinSequence(s)
+    if fl.startswith("general"):
+        return bs.GeneralSequence(_gen_alphabet(int(fl[7:])), list(s))
+    raise ValueError(fl)
+
+
+def sstr(seqobj):
+    """The symbols of a sequence object as one string (every alphabet used here has 1-character symbols)."""
+    if _FLAV[0] is None:
+        return str(seqobj)
+    return "".join(str(c) for c in seqobj.symbols)
+
+
+def _cv(v):
+    """Integer argument in the flavour under test."""
+    if v is None or _INT[0] is None:
+        return v
+    import numpy as np
+
+    return getattr(np, _INT[0])(v)
 
 
 def mk_x(seq, start, feats):
-    return _bt()["bs"].AnnotatedSequence(mk_annot(feats), mk_seq(seq), start)
+    return _bt()["bs"].AnnotatedSequence(mk_annot(feats), mk_seq(seq), _cv(start))
 
 
 def obs_loc(l):
@@ -405,13 +460,13 @@ def check_aseq_slice(ctx, seq, start, feats, sl, x=None, xcanon=None):
         ctx.ev(1, 1)
         ctx.count("refused")
         try:
-            y = x[a:b]
+            y = x[_cv(a):_cv(b)]
         except Exception as e:  # noqa: BLE001  (the documentation names no class)
             ctx.outcome(("refuse", form, type(e).__name__))
             return False
         ctx.violation("AnnotatedSequence.__getitem__|no_error|slice%s+start_below_sequence_start" % form,
                       "slice start below sequence_start was accepted", case(), "an exception",
-                      [str(y.sequence), y.sequence_start])
+                      [sstr(y.sequence), y.sequence_start])
         return True
 
     A0 = a if a is not None else start
@@ -443,7 +498,7 @@ def check_aseq_slice(ctx, seq, start, feats, sl, x=None, xcanon=None):
     else:
         ctx.count("accepted")
     try:
-        y = x[a:b]
+        y = x[_cv(a):_cv(b)]
     except Exception as e:  # noqa: BLE001
         if empty:
             ctx.outcome(("empty_exc", type(e).__name__))
@@ -454,7 +509,7 @@ def check_aseq_slice(ctx, seq, start, feats, sl, x=None, xcanon=None):
                       {"annotation": show(primary), "sequence": exp_seq, "sequence_start": exp_start},
                       type(e).__name__)
         return True
-    got_seq = str(y.sequence)
+    got_seq = sstr(y.sequence)
     got_annot = obs_annot(y.annotation)
     ctx.outcome((got_seq, y.sequence_start, got_annot))
     bad = False
@@ -488,7 +543,7 @@ def aseq_slices(n, start):
 
 
 def check_unchanged(ctx, x, seq, start, feats, what, case):
-    got = (str(x.sequence), x.sequence_start, obs_annot(x.annotation))
+    got = (sstr(x.sequence), x.sequence_start, obs_annot(x.annotation))
     if got != (seq, start, m_canon(feats)):
         ctx.violation("%s|operand_changed|any" % what, "a read-only operation changed its operand", case,
                       [seq, start, show(m_canon(feats))], [got[0], got[1], show(got[2])])
@@ -528,7 +583,7 @@ def check_annot_slice(ctx, feats, sl, an=None, canon=None):
         return {"kind": "annot_slice", "feats": feats, "sl": [a, b]}
 
     try:
-        y = an[a:b]
+        y = an[_cv(a):_cv(b)]
     except Exception as e:  # noqa: BLE001
         if empty:
             ctx.outcome(("empty_exc", type(e).__name__))
@@ -593,7 +648,7 @@ def check_findex(ctx, seq, start, locs, mode):
             ctx.violation("AnnotatedSequence.__getitem__(Feature)|raised_%s|%s" % (type(e).__name__, cls),
                           "feature index raised", case, sorted(accept), type(e).__name__)
             return True
-        got = str(r)
+        got = sstr(r)
         ctx.outcome(got)
         if type(r) is not type(x.sequence) or got not in accept:
             if klass != "accept":
@@ -617,7 +672,7 @@ def check_findex(ctx, seq, start, locs, mode):
         ctx.violation("AnnotatedSequence.__setitem__(Feature)|raised_%s|%s" % (type(e).__name__, cls),
                       "feature assignment raised", case, exp, type(e).__name__)
         return True
-    got = str(x.sequence)
+    got = sstr(x.sequence)
     ctx.outcome(("set", got))
     if got != exp:
         ctx.violation("AnnotatedSequence.__setitem__(Feature)|wrong_bases_written|%s" % cls,
@@ -638,16 +693,35 @@ def check_findex(ctx, seq, start, locs, mode):
     return False
 
 
+def _value_letters(seq):
+    fl = _FLAV[0]
+    if fl == "protein":
+        return "ACDEFGHIKLMNPQRS"
+    if fl is not None and fl.startswith("general"):
+        size = int(fl[7:])
+        return "".join(chr(GEN_BASE + c) for c in range(size - 1, size - 17, -1))
+    if fl != "ambiguous_forced" and set(seq) <= set("ACGT"):
+        return SET_LETTERS_UNAMB * 3
+    return SET_LETTERS * 3
+
+
 def set_value(seq, m):
     """The sequence written by assignments: letters of the alphabet the target has."""
-    if set(seq) <= set("ACGT"):
-        return SET_LETTERS_UNAMB[:m]
-    return SET_LETTERS[:m]
+    return _value_letters(seq)[:m]
+
+
+def other_symbol(seq, *avoid):
+    """A symbol of the target's alphabet different from the given ones."""
+    extra = "GT" if (_FLAV[0] is None or not (_FLAV[0] == "protein" or _FLAV[0].startswith("general"))) else ""
+    for c in _value_letters(seq) + extra:
+        if c not in avoid:
+            return c
+    raise ValueError(avoid)
 
 
 def _try_str(x, f):
     try:
-        return str(x[f])
+        return sstr(x[f])
     except Exception as e:  # noqa: BLE001
         return "<%s>" % type(e).__name__
 
@@ -658,7 +732,7 @@ def check_int_index(ctx, seq, start, p):
     ctx.ev(1, 1 if start != 1 else 0)
     ctx.count("accepted")
     try:
-        r = x[p]
+        r = x[_cv(p)]
     except Exception as e:  # noqa: BLE001
         ctx.violation("AnnotatedSequence.__getitem__(int)|raised_%s|in_range" % type(e).__name__,
                       "integer index inside the sequence raised", case, seq[p - start], type(e).__name__)
@@ -668,17 +742,17 @@ def check_int_index(ctx, seq, start, p):
         ctx.violation("AnnotatedSequence.__getitem__(int)|wrong_symbol|in_range",
                       "integer index is not sequence-start corrected", case, seq[p - start], r)
         return True
-    new = "A" if seq[p - start] != "A" else "C"
+    new = other_symbol(seq, seq[p - start])
     exp = seq[:p - start] + new + seq[p - start + 1:]
     try:
-        x[p] = new
+        x[_cv(p)] = new
     except Exception as e:  # noqa: BLE001
         ctx.violation("AnnotatedSequence.__setitem__(int)|raised_%s|in_range" % type(e).__name__,
                       "integer assignment inside the sequence raised", case, exp, type(e).__name__)
         return True
-    if str(x.sequence) != exp:
+    if sstr(x.sequence) != exp:
         ctx.violation("AnnotatedSequence.__setitem__(int)|wrong_base_written|in_range",
-                      "integer assignment wrote the wrong base", case, exp, str(x.sequence))
+                      "integer assignment wrote the wrong base", case, exp, sstr(x.sequence))
         return True
     return False
 
@@ -696,15 +770,15 @@ def check_slice_set(ctx, seq, start, sl):
     ctx.ev(1, 1 if (start != 1 or a is None or b is None) else 0)
     ctx.count("accepted")
     try:
-        x[a:b] = mk_seq(value)
+        x[_cv(a):_cv(b)] = mk_seq(value)
     except Exception as e:  # noqa: BLE001
         ctx.violation("AnnotatedSequence.__setitem__(slice)|raised_%s|slice%s" % (type(e).__name__, slice_form(a, b)),
                       "slice assignment inside the sequence raised", case, exp, type(e).__name__)
         return True
-    ctx.outcome(("sset", str(x.sequence)))
-    if str(x.sequence) != exp:
+    ctx.outcome(("sset", sstr(x.sequence)))
+    if sstr(x.sequence) != exp:
         ctx.violation("AnnotatedSequence.__setitem__(slice)|wrong_bases_written|slice%s" % slice_form(a, b),
-                      "slice assignment wrote the wrong bases", case, exp, str(x.sequence))
+                      "slice assignment wrote the wrong bases", case, exp, sstr(x.sequence))
         return True
     return False
 
@@ -714,7 +788,7 @@ def check_slice_set(ctx, seq, start, sl):
 # ---------------------------------------------------------------------------
 def obs_x(x):
     s = x.sequence
-    return (str(s) if hasattr(s, "code") else repr(type(s)), x.sequence_start, obs_annot(x.annotation))
+    return (sstr(s) if hasattr(s, "code") else repr(type(s)), x.sequence_start, obs_annot(x.annotation))
 
 
 def showx(o):
@@ -772,8 +846,8 @@ def check_revcomp(ctx, seq, start, feats, rstart):
         if k1 != "accept":
             continue
         try:
-            r1 = str(x[mk_feature(key, locs)])
-            r2 = str(y[mk_feature(key, rlocs)])
+            r1 = sstr(x[mk_feature(key, locs)])
+            r2 = sstr(y[mk_feature(key, rlocs)])
         except Exception as e:  # noqa: BLE001
             ctx.violation("AnnotatedSequence.reverse_complement|feature_index_raised_%s|%s" % (type(e).__name__, cls),
                           "feature index on the reverse complement raised", case, sorted(acc1), type(e).__name__)
@@ -818,8 +892,9 @@ def check_copy(ctx, seq, start, feats):
         ctx.violation("AnnotatedSequence.copy|copy_not_equal|any", "copy() == original is False", case, True, False)
         return True
     # independence: change every component of the copy, re-observe the original
-    new = "A" if "A" not in (seq[0], seq[-1]) else ("C" if "C" not in (seq[0], seq[-1]) else "G")
-    c.sequence[0] = new
+    new = other_symbol(seq, seq[0], seq[-1]) if seq else None
+    if seq:
+        c.sequence[0] = new
     c.annotation.add_feature(mk_feature("zz", [[start, start, 0, 0]]))
     for f in list(c.annotation):
         if f.key != "zz":
@@ -832,7 +907,8 @@ def check_copy(ctx, seq, start, feats):
         return True
     # and the other way round
     c2 = x.copy()
-    x.sequence[len(seq) - 1] = new
+    if seq:
+        x.sequence[len(seq) - 1] = new
     x.annotation.add_feature(mk_feature("zz", [[start, start, 0, 0]]))
     if obs_x(c2) != orig:
         ctx.violation("AnnotatedSequence.copy|not_independent:original_to_copy|any",
@@ -932,6 +1008,17 @@ def check_container(ctx, fa, fb):
             pass
         else:
             return v("__getitem__|integer_accepted", "integer index documented as unsupported was accepted", "TypeError", "value")
+        # a + b is a new annotation: emptying / extending it must not reach the operands
+        for res, nm in ((A + B, "__add__"), (B + A, "__add__")) + (((A + mk_feature(*fb[0]), "__add__(Feature)"),) if fb else ()):
+            if res is A or res is B:
+                return v("%s|returns_operand" % nm, "a + b returned one of its operands", "new Annotation", "operand")
+            res.add_feature(mk_feature("zz", [[7, 7, 0, 0]]))
+            for f in list(res):
+                if f.key != "zz":
+                    res.del_feature(f)
+            if obs_annot(A) != ca or obs_annot(B) != cb:
+                return v("%s|result_aliases_operand" % nm, "changing the result of a + b changed an operand", show(ca),
+                         show(obs_annot(A)))
     except Exception as e:  # noqa: BLE001
         return v("container_ops|raised_%s" % type(e).__name__, "legal container operation raised: %s" % str(e)[:80],
                  "success", type(e).__name__)
@@ -1080,6 +1167,18 @@ def shards(tier, seed):
         out.append({"kind": "annot2", "part": part, "parts": parts})
     out.append({"kind": "container"})
     out.append({"kind": "values"})
+    # dimension-audit families (notes/C13.md, "Dimension audit")
+    for fl in SEQ_FLAVOURS:
+        out.append({"kind": "dim_types", "flavour": fl})
+    for it in INT_FLAVOURS:
+        out.append({"kind": "dim_ints", "int": it})
+    for start in (1, 5):
+        out.append({"kind": "dim_reuse", "start": start})
+    out.append({"kind": "dim_alias"})
+    out.append({"kind": "dim_empty"})
+    for what in ("width8", "width98", "features", "locations"):
+        out.append({"kind": "dim_many", "what": what})
+    out.append({"kind": "dim_huge"})
     # cheap single-location shards first (they finish first and supply the minimal witnesses), then the
     # heavy products, widest first
     light = {"aseq1": 0, "findex": 1, "revcomp1": 2, "container": 3, "values": 3, "annot1": 3}
@@ -1183,6 +1282,20 @@ def run_shard(shard, ctx):
         run_findex(shard, ctx, p, b)
     elif kind in ("revcomp1", "revcomp2"):
         run_revcomp(shard, ctx, p, b)
+    elif kind == "dim_types":
+        run_dim_types(shard, ctx, p)
+    elif kind == "dim_ints":
+        run_dim_ints(shard, ctx, p)
+    elif kind == "dim_reuse":
+        run_dim_reuse(shard, ctx, p)
+    elif kind == "dim_alias":
+        run_dim_alias(ctx, p)
+    elif kind == "dim_empty":
+        run_dim_empty(ctx, p)
+    elif kind == "dim_many":
+        run_dim_many(shard, ctx, p)
+    elif kind == "dim_huge":
+        run_dim_huge(ctx)
     elif kind == "container":
         run_container(ctx, p)
     elif kind == "values":
@@ -1281,11 +1394,640 @@ def run_container(ctx, p):
 
 
 # ---------------------------------------------------------------------------
+# dimension-audit families (each re-uses the checks above along one more dimension)
+# ---------------------------------------------------------------------------
+class _Tag:
+    """ctx proxy: adds the family's parameters to every reported case and its class to the signature."""
+
+    def __init__(self, ctx, extra, cls):
+        self._ctx, self._extra, self._cls = ctx, extra, cls
+
+    def violation(self, sig, what, case, expected=None, observed=None):
+        case = dict(case) if isinstance(case, dict) else {"case": case}
+        case.update(self._extra)
+        self._ctx.violation(sig + "+" + self._cls, what, case, expected, observed)
+
+    def __getattr__(self, name):
+        return getattr(self._ctx, name)
+
+
+def flavour_seq(fl, p, n):
+    if fl == "protein":
+        return "MKVLWHYF"[:n]
+    if fl.startswith("general"):
+        size = int(fl[7:])
+        codes = [254, 255, 256, 257, 299, 0, 1, 2] if size == 300 else [size - 2, size - 1, 0, 1, 255, 128, 2, 3]
+        return "".join(chr(GEN_BASE + c) for c in codes[:n])
+    if fl == "ambiguous_forced":
+        return UNAMB[:n]
+    return seq_for(p["letters"], n)
+
+
+def run_dim_types(shard, ctx, p):
+    """Dimensions 1 + 4: code dtype switch (alphabet size 256 / 257 / 300), other Sequence classes, sequences
+    whose code array is a non-contiguous view."""
+    fl = shard["flavour"]
+    n = 4 if ctx.tier == "quick" else 5
+    nucl = fl in ("neg_stride_view", "strided_view", "ambiguous_forced")
+    t = _Tag(ctx, {"flavour": fl}, "seq:" + fl)
+    _FLAV[0] = fl
+    try:
+        seq = flavour_seq(fl, p, n)
+        for start in (1, 5):
+            slices = aseq_slices(n, start)
+            for l in locs_over(start - 1, start + n, [0, ML], (start, start + n - 1)):
+                run_aseq_one(t, seq, start, [["a", [l]]], slices)
+            single = [[f, l, st, 0] for f, l in intervals(start, start + n - 1) for st in ((0, 1) if nucl else (0,))]
+            for k in (1, 2):
+                for combo in itertools.combinations(single, k):
+                    locs = [list(l) for l in combo]
+                    check_findex(t, seq, start, locs, "get")
+                    check_findex(t, seq, start, locs, "set")
+            for pos in range(start, start + n):
+                check_int_index(t, seq, start, pos)
+            for sl in slices:
+                if sl[0] is None or sl[0] >= start:
+                    check_slice_set(t, seq, start, sl)
+            for l in single:
+                feats = [["a", [l]], ["b", [[start - 1, start, 1, ML]]]]
+                check_copy(t, seq, start, feats)
+                if nucl:
+                    for r in (None, start + 3):
+                        check_revcomp(t, seq, start, feats, r)
+        ctx.sample({"kind": "findex", "seq": seq, "start": 5, "locs": locs, "mode": "set", "flavour": fl})
+    finally:
+        _FLAV[0] = None
+
+
+def run_dim_ints(shard, ctx, p):
+    """Dimension 4: numpy integer scalars as slice bounds, integer index, sequence_start and positions."""
+    it = shard["int"]
+    unsigned = it.startswith("u")
+    n = 3
+    t = _Tag(ctx, {"int": it}, "int:" + it)
+    _INT[0] = it
+    try:
+        seq = seq_for(p["letters"], n)
+        for start in (1, 5):
+            slices = [sl for sl in aseq_slices(n, start) if not unsigned or all(v is None or v >= 0 for v in sl)]
+            for with_loc in ((False, True) if not unsigned else (False,)):
+                _INT_LOC[0] = with_loc
+                t2 = _Tag(ctx, {"int": it, "int_loc": with_loc}, "int:" + it + ("+positions" if with_loc else ""))
+                for l in locs_over(start - 1, start + n, [0, ML], (start, start + n - 1)):
+                    run_aseq_one(t2, seq, start, [["a", [l]]], slices)
+                    if not unsigned:
+                        check_revcomp(t2, seq, start, [["a", [l]]], start + 3)
+                        check_copy(t2, seq, start, [["a", [l]]])
+                single = [[f, l, st, 0] for f, l in intervals(start, start + n - 1) for st in (0, 1)]
+                if not unsigned:
+                    for k in (1, 2):
+                        for combo in itertools.combinations(single, k):
+                            locs = [list(l) for l in combo]
+                            check_findex(t2, seq, start, locs, "get")
+                            check_findex(t2, seq, start, locs, "set")
+            _INT_LOC[0] = False
+            for pos in range(start, start + n):
+                check_int_index(t, seq, start, pos)
+            for sl in slices:
+                if sl[0] is None or sl[0] >= start:
+                    check_slice_set(t, seq, start, sl)
+        # bare annotation
+        lo, hi = (0, 3) if unsigned else (-2, 2)
+        for with_loc in ((False, True) if not unsigned else (False,)):
+            _INT_LOC[0] = with_loc
+            t2 = _Tag(ctx, {"int": it, "int_loc": with_loc}, "int:" + it + ("+positions" if with_loc else ""))
+            for l in locs_over(lo, hi, [0, ML]):
+                for sl in annot_slices(lo, hi):
+                    if unsigned and any(v is not None and v < 0 for v in sl):
+                        continue
+                    if unsigned and sl[1] == 0:
+                        # stop - 1 underflows in numpy's unsigned arithmetic: existing behaviour, unspecified
+                        ctx.count("unspecified_unsigned_zero_stop_not_run")
+                        continue
+                    check_annot_slice(t2, [["a", [l]]], sl)
+        ctx.sample({"kind": "aseq_slice", "seq": seq, "start": 5, "feats": [["a", [l]]], "sl": [5, 7], "int": it})
+        # value semantics of locations built from numpy integers
+        if not unsigned:
+            _INT_LOC[0] = True
+            for l in locs_over(-1, 1, [0, ML]):
+                ctx.ev(1, 1)
+                ctx.count("accepted")
+                a = mk_loc(l)
+                _INT_LOC[0] = False
+                b = mk_loc(l)
+                _INT_LOC[0] = True
+                if not (a == b) or hash(a) != hash(b) or len({a, b}) != 1:
+                    ctx.violation("Location.__eq__/__hash__|numpy_int_positions_differ|int:" + it,
+                                  "a Location built from numpy integers differs from the one built from ints",
+                                  {"kind": "values_int", "l": l, "int": it}, True, False)
+    finally:
+        _INT[0] = None
+        _INT_LOC[0] = False
+
+
+def m_slice_list(feats, A, B):
+    """Model slice as a feature list (input form of the checks), one entry per distinct clipped feature."""
+    out = []
+    for key, locs, _q in sorted(m_slice_feats(feats, A, B), key=repr):
+        out.append([key, sorted(list(l) for l in locs)])
+    return out
+
+
+def check_slice_of_slice(ctx, seq, start, feats, sl1, sl2):
+    """x[sl1][sl2]: the second slice acts on an object that was produced by slicing (defect flags set, other
+    sequence_start, sequence code a view)."""
+    a, b = sl1
+    end = start + len(seq)
+    A0 = a if a is not None else start
+    B0 = b if b is not None else end
+    x = mk_x(seq, start, feats)
+    y = x[a:b]
+    seq_y, start_y, feats_y = seq[A0 - start:B0 - start], A0, m_slice_list(feats, A0, B0)
+    if (sstr(y.sequence), y.sequence_start, obs_annot(y.annotation)) != (seq_y, start_y, m_canon(feats_y)):
+        return False  # first-level disagreement is the business of the base families
+    t = _Tag(ctx, {"kind": "slice_of_slice", "seq": seq, "start": start, "feats": feats, "sl1": list(sl1),
+                   "sl": list(sl2)}, "object_from_slice")
+    bad = check_aseq_slice(t, seq_y, start_y, feats_y, sl2, y)
+    return bad or check_unchanged(ctx, x, seq, start, feats, "AnnotatedSequence.__getitem__(slice of slice)",
+                                  {"kind": "slice_of_slice", "seq": seq, "start": start, "feats": feats,
+                                   "sl1": list(sl1), "sl": list(sl2)})
+
+
+def check_two_writes(ctx, seq, start, locs1, locs2):
+    """x[f] = v1; x[g] = v2 on the same object == both writes applied to the model in turn."""
+    case = {"kind": "two_writes", "seq": seq, "start": start, "locs1": locs1, "locs2": locs2}
+    t1, t2 = [tuple(l) for l in locs1], [tuple(l) for l in locs2]
+    ctx.ev(1, 1)
+    ctx.count("accepted")
+    x = mk_x(seq, start, [["a", locs1], ["b", locs2]])
+    v1 = set_value(seq, sum(l[1] - l[0] + 1 for l in t1))
+    v2 = set_value(seq, 16)[::-1][:sum(l[1] - l[0] + 1 for l in t2)]
+    exp = m_feature_set(m_feature_set(seq, start, t1, v1), start, t2, v2)
+    try:
+        x[mk_feature("a", locs1)] = mk_seq(v1)
+        x[mk_feature("b", locs2)] = mk_seq(v2)
+        got, back = sstr(x.sequence), sstr(x[mk_feature("b", locs2)])
+    except Exception as e:  # noqa: BLE001
+        ctx.violation("AnnotatedSequence.__setitem__(Feature)|raised_%s|second_write" % type(e).__name__,
+                      "second feature assignment on the same object raised", case, exp, type(e).__name__)
+        return True
+    ctx.outcome(("w2", got))
+    if got != exp or back != v2:
+        ctx.violation("AnnotatedSequence.__setitem__(Feature)|wrong_bases_written|second_write",
+                      "a second feature assignment on the same object differs from the model", case, [exp, v2], [got, back])
+        return True
+    return False
+
+
+def check_after_refusal(ctx, seq, start, feats, locs_mixed):
+    """Dimension 9: refused calls leave the object unchanged and the next valid call behaves like on a fresh object."""
+    t = _Tag(ctx, {"kind": "after_refusal", "seq": seq, "start": start, "feats": feats}, "after_refusal")
+    x = mk_x(seq, start, feats)
+    n = len(seq)
+    for bad in ((start - 1, None), (start - 2, start + n), (0, start + 1)):
+        try:
+            x[bad[0]:bad[1]]
+        except Exception:  # noqa: BLE001
+            pass
+    try:
+        x[mk_feature("m", locs_mixed)]
+    except Exception:  # noqa: BLE001
+        pass
+    try:
+        x.annotation.del_feature(mk_feature("absent", [[start, start, 0, 0]]))
+    except KeyError:
+        pass
+    try:
+        x.annotation.add_feature("not a feature")
+    except TypeError:
+        pass
+    try:
+        x["x"]
+    except TypeError:
+        pass
+    if check_unchanged(t, x, seq, start, feats, "refused_calls", {"kind": "after_refusal"}):
+        return True
+    xc = m_canon(feats)
+    for sl in aseq_slices(n, start):
+        if sl[0] is None or sl[0] >= start:
+            check_aseq_slice(t, seq, start, feats, sl, x, xc)
+    return False
+
+
+def check_wrong_length_set(ctx, seq, start, locs, delta):
+    """Documented: the replacing sequence must have the same length.  Existing behaviour (partial writes,
+    silent truncation) is unspecified: outcomes are only counted."""
+    tl = [tuple(l) for l in locs]
+    m = sum(l[1] - l[0] + 1 for l in tl) + delta
+    if m < 0:
+        return
+    x = mk_x(seq, start, [["a", locs]])
+    ctx.ev(1, 0)
+    try:
+        x[mk_feature("a", locs)] = mk_seq(set_value(seq, m))
+        res = "accepted"
+    except Exception as e:  # noqa: BLE001
+        res = "raised_" + type(e).__name__
+    ctx.count("unspecified_wrong_length_value_%s_%s" % (res, "unchanged" if sstr(x.sequence) == seq else "sequence_modified"))
+    ctx.outcome(("wl", res, sstr(x.sequence)))
+
+
+def check_annotation_history(ctx, seq, start, fl):
+    """Dimension 2: an annotation reached by in-place edits, sliced before and after every edit, equals the
+    annotation built from scratch (stale cached results would show)."""
+    case = {"kind": "history", "seq": seq, "start": start, "fl": fl}
+    n = len(seq)
+    ctx.ev(1, 1)
+    ctx.count("accepted")
+    bs = _bt()["bs"]
+    an = bs.Annotation()
+    x = bs.AnnotatedSequence(an, mk_seq(seq), start)
+    cur = []
+    slices = [(start, start + n), (start + 1, None), (None, start + n - 1), (None, None)]
+
+    def agree(step):
+        for sl in slices:
+            A = sl[0] if sl[0] is not None else start
+            B = sl[1] if sl[1] is not None else start + n
+            want = (seq[A - start:B - start], A, m_slice_feats(cur, A, B))
+            # an omitted bound may leave overhanging locations untouched (EITHER, see ASSUMPTIONS)
+            ok_annots = {m_slice_feats(cur, a_, b_) for a_ in ([A] if sl[0] is not None else [A, None])
+                         for b_ in ([B] if sl[1] is not None else [B, None])}
+            y = x[sl[0]:sl[1]]
+            got = (sstr(y.sequence), y.sequence_start, obs_annot(y.annotation))
+            sub = obs_annot(an[A:B])
+            if got[:2] != want[:2] or got[2] not in ok_annots or sub != want[2]:
+                ctx.violation("AnnotatedSequence.__getitem__|stale_or_wrong_after_edit|history:%s" % step,
+                              "slice after an in-place edit differs from the slice of an object built from scratch",
+                              dict(case, step=step, sl=list(sl)), [want[0], want[1], show(want[2])],
+                              [got[0], got[1], show(got[2]), show(sub)])
+                return False
+        return True
+
+    if not agree("empty"):
+        return True
+    for i, f in enumerate(fl):
+        how = ("add_feature", "iadd_annotation", "iadd_feature")[i % 3]
+        if how == "add_feature":
+            an.add_feature(mk_feature(*f))
+        elif how == "iadd_annotation":
+            an += mk_annot([f])
+        else:
+            an += mk_feature(*f)
+        if canon_feature(f[0], [tuple(l) for l in f[1]]) not in m_canon(cur):
+            cur = cur + [f]
+        if not agree(how):
+            return True
+    for f in fl[:-1]:
+        del an[mk_feature(*f)]
+        cur = [g for g in cur if g != f]
+        if not agree("del"):
+            return True
+    # sequence edit between slices
+    new = other_symbol(seq, seq[0])
+    x[start] = new
+    seq = new + seq[1:]
+    case["seq_after"] = seq
+    if not agree("int_assignment"):
+        return True
+    # reverse complement twice on the same object with two start values
+    if _FLAV[0] is None:
+        for r in (start + 3, 1, start + 3):
+            y = x.reverse_complement(sequence_start=r)
+            es, est, ef = m_revcomp(seq, start, [(k, [tuple(l) for l in locs]) for k, locs in cur], r)
+            if obs_x(y) != (es, est, m_canon(ef)):
+                ctx.violation("AnnotatedSequence.reverse_complement|stale_or_wrong_on_second_call|history",
+                              "repeated reverse_complement on one object differs from the model",
+                              dict(case, rstart=r), showx((es, est, m_canon(ef))), showx(obs_x(y)))
+                return True
+    return False
+
+
+def run_dim_reuse(shard, ctx, p):
+    start = shard["start"]
+    n = 4
+    seq = seq_for(p["letters"], n)
+    inner = locs_over(start, start + n - 1, [0, BIT["BEYOND_RIGHT"]])
+    plain = locs_over(start, start + n - 1, [0])
+    all_sl = aseq_slices(n, start)
+    first = [sl for sl in all_sl if sl[0] is None or sl[0] >= start]
+    for pr in pairs(inner, plain):
+        feats = [["a", pr]]
+        if pr[0][3] == 0 and pr[0][0] == start:  # a complete sub-space: first location starts at the sequence start
+            for sl1 in first:
+                A0 = sl1[0] if sl1[0] is not None else start
+                B0 = sl1[1] if sl1[1] is not None else start + n
+                if A0 >= B0:
+                    continue
+                for sl2 in aseq_slices(B0 - A0, A0):
+                    check_slice_of_slice(ctx, seq, start, feats, sl1, sl2)
+    single = [[f, l, st, 0] for f, l in intervals(start, start + n - 1) for st in (0, 1)]
+    for l in inner:
+        for l2 in plain:
+            if l[2] != l2[2] and l[3] == 0:
+                check_after_refusal(ctx, seq, start, [["a", [l]], ["b", [l2]]], [l, l2])
+    for c1 in itertools.chain(itertools.combinations(single, 1), itertools.combinations(single, 2)):
+        if len({l[2] for l in c1}) > 1 or not disjoint([tuple(l) for l in c1]):
+            continue
+        for delta in (-1, 1, -2):
+            check_wrong_length_set(ctx, seq, start, [list(l) for l in c1], delta)
+        for c2 in itertools.combinations(single, 1):
+            check_two_writes(ctx, seq, start, [list(l) for l in c1], [list(l) for l in c2])
+    feats3 = [["a", [[start, start + 1, 0, 0]]], ["b", [[start + 1, start + 3, 1, ML]]], ["a", [[start + 2, start + 2, 0, 0], [start, start, 0, 0]]],
+              ["c", [[start - 1, start + n, 0, 0]]]]
+    for perm in itertools.permutations(feats3):
+        check_annotation_history(ctx, seq, start, [list(f) for f in perm])
+    ctx.sample({"kind": "slice_of_slice", "seq": seq, "start": start, "feats": feats, "sl1": [start, start + 3],
+                "sl": [start + 1, None]})
+
+
+def _seq_changed_by(x, seq, mutate):
+    try:
+        mutate()
+    except Exception:  # noqa: BLE001
+        return "raised"
+    return "shared" if sstr(x.sequence) != seq else "independent"
+
+
+def check_aliasing(ctx, seq, start, locs):
+    """Dimension 3 (+7): arguments are not modified, later changes of mutable arguments and of returned
+    containers do not reach Feature / Annotation objects; the order in which locations, qualifiers and
+    features are supplied is irrelevant."""
+    bs = _bt()["bs"]
+    case = {"kind": "alias", "seq": seq, "start": start, "locs": locs}
+    tl = [tuple(l) for l in locs]
+    ctx.ev(1, 1)
+    ctx.count("accepted")
+
+    def v(sig, what, exp=None, got=None):
+        ctx.violation(sig, what, case, exp, got)
+        return True
+
+    want = canon_feature("a", tl)
+    # --- Feature: container type, later mutation of the arguments
+    lobjs = [mk_loc(l) for l in locs]
+    for ctor in (list, tuple, set, frozenset):
+        arg = ctor(lobjs)
+        q = {"gene": "a"}
+        f = bs.Feature("a", arg, q)
+        if obs_feature(f) != want:
+            return v("Feature.__init__|wrong_content|locs_as_%s" % ctor.__name__, "feature differs from its arguments", show([want]), None)
+        if len(arg) != len(set(lobjs)) or q != {"gene": "a"}:
+            return v("Feature.__init__|argument_modified|locs_as_%s" % ctor.__name__, "constructor changed its arguments")
+        if ctor is list:
+            arg.append(mk_loc([start + 40, start + 41, 0, 0]))
+            del arg[0]
+        elif ctor is set:
+            arg.clear()
+        q["gene"] = "changed"
+        q["new"] = "x"
+        if obs_feature(f) != want:
+            return v("Feature.__init__|aliases_argument|locs_as_%s" % ctor.__name__,
+                     "changing the locs / qual objects handed to Feature() changed the (immutable) feature", show([want]),
+                     show([obs_feature(f)]))
+    # --- order independence: every order of the locations and of the qualifier insertion
+    ref = bs.Feature("b", lobjs, qual_of("b"))
+    x = mk_x(seq, start, [["b", locs]])
+    inside = all(l[0] >= start and l[1] < start + len(seq) for l in tl)
+    klass, acc = m_feature_get(seq, start, tl) if inside else ("skip", None)
+    base_get = sstr(x[ref]) if klass == "accept" else None
+    for perm in itertools.permutations(range(len(locs))):
+        q = qual_of("b")
+        q2 = dict(reversed(list(q.items())))
+        g = bs.Feature("b", [mk_loc(locs[i]) for i in perm], q2)
+        if not (g == ref) or hash(g) != hash(ref) or len({g, ref}) != 1:
+            return v("Feature.__eq__/__hash__|order_dependent|any", "location / qualifier order changes the feature")
+        if klass == "accept":
+            if sstr(x[g]) != base_get:
+                return v("AnnotatedSequence.__getitem__(Feature)|order_dependent|%s" % floc_class(tl),
+                         "x[f] depends on the order in which the locations were given", base_get, sstr(x[g]))
+            x2 = mk_x(seq, start, [["b", locs]])
+            val = set_value(seq, sum(l[1] - l[0] + 1 for l in tl))
+            item = mk_seq(val)
+            x2[g] = item
+            if sstr(x2.sequence) != m_feature_set(seq, start, tl, val):
+                return v("AnnotatedSequence.__setitem__(Feature)|order_dependent|%s" % floc_class(tl),
+                         "x[f] = s depends on the order in which the locations were given",
+                         m_feature_set(seq, start, tl, val), sstr(x2.sequence))
+            # the assigned item is an input: unchanged, and not referenced afterwards
+            if sstr(item) != val:
+                return v("AnnotatedSequence.__setitem__(Feature)|argument_modified|%s" % floc_class(tl),
+                         "x[f] = item changed item", val, sstr(item))
+            after = sstr(x2.sequence)
+            item[0] = other_symbol(seq, val[0])
+            if sstr(x2.sequence) != after:
+                return v("AnnotatedSequence.__setitem__(Feature)|aliases_argument|%s" % floc_class(tl),
+                         "changing item after x[f] = item changed x", after, sstr(x2.sequence))
+    # --- Annotation: container types, later mutation, returned containers
+    feats = [["a", locs], ["b", [locs[0]]], ["c", [[start, start, 1, 0]]]]
+    cw = m_canon(feats)
+    fobjs = [mk_feature(k, ls) for k, ls in feats]
+    for nm, arg in (("list", list(fobjs)), ("reversed_list", list(reversed(fobjs))), ("tuple", tuple(fobjs)),
+                    ("set", set(fobjs)), ("frozenset", frozenset(fobjs)), ("generator", (f for f in fobjs)),
+                    ("dict_keys", dict.fromkeys(fobjs).keys())):
+        an = bs.Annotation(arg)
+        if obs_annot(an) != cw:
+            return v("Annotation.__init__|wrong_content|features_as_%s" % nm, "annotation differs from its argument", show(cw),
+                     show(obs_annot(an)))
+        if nm in ("list", "reversed_list"):
+            arg.pop()
+            arg.append(mk_feature("zz", [[1, 1, 0, 0]]))
+        elif nm == "set":
+            arg.clear()
+        if obs_annot(an) != cw:
+            return v("Annotation.__init__|aliases_argument|features_as_%s" % nm,
+                     "changing the container handed to Annotation() changed the annotation", show(cw), show(obs_annot(an)))
+        got = an.get_features()
+        try:
+            got.clear()
+            got.add(mk_feature("zz", [[1, 1, 0, 0]]))
+        except AttributeError:
+            pass  # an immutable container is fine
+        if obs_annot(an) != cw:
+            return v("Annotation.get_features|returns_internal_set|any",
+                     "changing the set returned by get_features() (documented: a copy) changed the annotation", show(cw),
+                     show(obs_annot(an)))
+    # --- existing sharing the statement does not speak about: counted only
+    an = mk_annot(feats)
+    sq = mk_seq(seq)
+    x = bs.AnnotatedSequence(an, sq, start)
+    ctx.count("unspecified_constructor_%s" % ("keeps_references" if (x.annotation is an and x.sequence is sq) else "copies"))
+    if len(seq) >= 2:
+        o = other_symbol(seq, seq[1])
+        y = x[start + 1:]
+        ctx.count("unspecified_slice_sequence_%s" % _seq_changed_by(x, seq, lambda: y.sequence.__setitem__(0, o)))
+        x = mk_x(seq, start, feats)
+        y = x[start + 1:]
+        y.annotation.add_feature(mk_feature("zz", [[1, 1, 0, 0]]))
+        ctx.count("unspecified_slice_annotation_%s" % ("shared" if obs_annot(x.annotation) != cw else "independent"))
+        if klass == "accept":
+            x = mk_x(seq, start, feats)
+            r = x[mk_feature("a", locs)]
+            ctx.count("unspecified_feature_index_result_%s" % _seq_changed_by(x, seq, lambda: r.__setitem__(0, other_symbol(seq, sstr(r)[0]))))
+        x = mk_x(seq, start, feats)
+        rc = x.reverse_complement()
+        ctx.count("unspecified_reverse_complement_result_%s" % _seq_changed_by(x, seq, lambda: rc.sequence.__setitem__(0, other_symbol(seq, sstr(rc.sequence)[0]))))
+    ctx.outcome(("alias", want))
+    return False
+
+
+def run_dim_alias(ctx, p):
+    n = 4
+    for start in (1, 5):
+        seq = seq_for(p["letters"], n)
+        single = [[f, l, st, 0] for f, l in intervals(start, start + n - 1) for st in (0, 1)]
+        single += [[start - 1, start, 0, ML], [start + n - 1, start + n, 1, 0]]
+        for k in (1, 2, 3):
+            for combo in itertools.combinations(single, k):
+                if k == 3 and not disjoint([tuple(l) for l in combo]):
+                    continue
+                check_aliasing(ctx, seq, start, [list(l) for l in combo])
+    ctx.sample({"kind": "alias", "seq": seq, "start": start, "locs": [list(l) for l in combo]})
+
+
+def run_dim_empty(ctx, p):
+    """Dimension 5: no feature, no base, no location."""
+    bs = _bt()["bs"]
+    for start in (1, 5):
+        for n in (0, 1, 2, 3):
+            seq = seq_for(p["letters"], n)
+            for seqv in {seq, UNAMB[:n]}:
+                run_aseq_one(ctx, seqv, start, [], aseq_slices(n, start))
+                check_copy(ctx, seqv, start, [])
+                for r in (None, start + 3):
+                    check_revcomp(ctx, seqv, start, [], r)
+        # empty sequence under features (every slice is empty = EITHER; copy and double reverse complement are not)
+        for l in locs_over(start - 1, start + 1, [0, ML]):
+            feats = [["a", [l]]]
+            run_aseq_one(ctx, "", start, feats, aseq_slices(0, start))
+            check_copy(ctx, "", start, feats)
+            for r in (None, start + 3):
+                check_revcomp(ctx, "", start, feats, r)
+    check_annot_copy(ctx, [])
+    run_annot_one(ctx, [], annot_slices(-1, 1))
+    # a feature without a location is refused (documented ValueError text in the constructor)
+    for arg in ([], (), set()):
+        ctx.ev(1, 1)
+        ctx.count("refused")
+        try:
+            f = bs.Feature("a", arg)
+        except Exception as e:  # noqa: BLE001
+            ctx.outcome(("nolocs", type(e).__name__))
+        else:
+            ctx.violation("Feature.__init__|no_error|no_location", "a feature without locations was accepted",
+                          {"kind": "empty_feature"}, "an exception", repr(f))
+    for args in ((3, 2), (0, -1)):
+        ctx.ev(1, 1)
+        ctx.count("refused")
+        try:
+            bs.Location(*args)
+        except Exception as e:  # noqa: BLE001
+            ctx.outcome(("badloc", type(e).__name__))
+        else:
+            ctx.violation("Location.__init__|no_error|first_gt_last", "first > last was accepted", {"kind": "bad_location"},
+                          "an exception", "object")
+    ctx.sample({"kind": "aseq_all_slices", "seq": "", "start": 5, "feats": [["a", [[4, 6, 0, 0]]]]})
+
+
+def run_dim_many(shard, ctx, p):
+    """Dimension 6: positions whose decimal width changes inside the sequence (8..12, 98..102), many features in
+    one annotation, many locations in one feature."""
+    what = shard["what"]
+    if what.startswith("width"):
+        start = int(what[5:])
+        n = 5
+        seq = seq_for(p["letters"], n)
+        slices = aseq_slices(n, start)
+        for l in locs_over(start - 1, start + n, [0, ML], (start, start + n - 1)):
+            run_aseq_one(ctx, seq, start, [["a", [l]]], slices)
+            check_revcomp(ctx, seq, start, [["a", [l]]], start + 3)
+        single = [[f, l, st, 0] for f, l in intervals(start, start + n - 1) for st in (0, 1)]
+        for k in (1, 2, 3):
+            for combo in itertools.combinations(single, k):
+                locs = [list(l) for l in combo]
+                check_findex(ctx, seq, start, locs, "get")
+                check_findex(ctx, seq, start, locs, "set")
+        ctx.sample({"kind": "findex", "seq": seq, "start": start, "locs": locs, "mode": "get"})
+        return
+    n = 12
+    seq = seq_for(p["letters"], n)
+    counts = [10, 101] if ctx.tier == "quick" else [9, 10, 11, 99, 100, 101]
+    for start in (1, 95):
+        slices = aseq_slices(n, start)
+        if what == "features":
+            pool = [[f, l, st, d] for f, l in intervals(start - 1, start + n) for st in (0, 1) for d in (0, ML)]
+            for cnt in counts:
+                feats = [["f%03d" % i, [pool[(i * 7) % len(pool)]]] for i in range(cnt)]
+                run_aseq_one(ctx, seq, start, feats, slices)
+                check_copy(ctx, seq, start, feats)
+                check_annot_copy(ctx, feats)
+                for r in (None, start + 3):
+                    check_revcomp(ctx, seq, start, feats, r)
+            ctx.sample({"kind": "aseq_all_slices", "seq": seq, "start": start, "feats": feats[:3] + [["...", []]]})
+        else:
+            for cnt in (9, 10, 11, 12):
+                for st in (0, 1):
+                    for order in ("single_bases", "two_bases"):
+                        if order == "single_bases":
+                            locs = [[start + i, start + i, st, 0] for i in range(cnt)]
+                        else:
+                            locs = [[start + i, min(start + i + 1, start + n - 1), st, 0] for i in range(0, cnt, 2)] + \
+                                   [[start + i, start + i, st, 0] for i in range(cnt, n)]
+                        feats = [["a", locs]]
+                        run_aseq_one(ctx, seq, start, feats, slices)
+                        check_findex(ctx, seq, start, locs, "get")
+                        check_findex(ctx, seq, start, locs, "set")
+                        check_copy(ctx, seq, start, feats)
+                        check_revcomp(ctx, seq, start, feats, start + 3)
+            ctx.sample({"kind": "findex", "seq": seq, "start": start, "locs": locs, "mode": "set"})
+
+
+def run_dim_huge(ctx):
+    """Dimension 1: Annotation.__getitem__ uses +-sys.maxsize as 'no bound'.  Positions of that magnitude cannot
+    belong to any sequence; differences from the model are counted as unspecified, never reported."""
+    import sys
+
+    M = sys.maxsize
+    locs = [[M - 2, M - 1, 0, 0], [M - 1, M, 0, 0], [M, M + 1, 1, 0], [M + 1, M + 2, 0, 0], [-M, -M + 1, 0, 0],
+            [-M - 1, -M, 1, 0], [-M - 2, -M - 1, 0, 0]]
+    bnds = [None, M - 1, M, M + 1, -M - 1, -M, -M + 1]
+    for l in locs:
+        an = mk_annot([["a", [l]]])
+        for a in bnds:
+            for b in bnds:
+                ctx.ev(1, 0)
+                exp = m_slice_feats([["a", [l]]], a, b)
+                try:
+                    got = obs_annot(an[a:b])
+                except Exception as e:  # noqa: BLE001
+                    ctx.count("unspecified_huge_position_raised_%s" % type(e).__name__)
+                    continue
+                ctx.outcome(("huge", got))
+                ctx.count("unspecified_huge_position_%s" % ("agrees" if got == exp else "differs"))
+    ctx.sample({"kind": "annot_slice", "feats": [["a", [locs[3]]]], "sl": [None, None], "note": "counted only"})
+
+
+# ---------------------------------------------------------------------------
 # replay
 # ---------------------------------------------------------------------------
 def replay(case, ctx):
     if isinstance(case, str):
         case = json.loads(case)
+    if isinstance(case, dict) and (case.get("flavour") or case.get("int")):
+        # a case of a dimension family: same check, other flavour of sequence / integers
+        fl, it = case.get("flavour"), case.get("int")
+        cls = ("seq:" + fl) if fl else ("int:" + it + ("+positions" if case.get("int_loc") else ""))
+        _FLAV[0], _INT[0], _INT_LOC[0] = fl, it, bool(case.get("int_loc"))
+        try:
+            extra = {k: case[k] for k in ("flavour", "int", "int_loc") if k in case}
+            _replay(dict(case), _Tag(ctx, extra, cls))
+        finally:
+            _FLAV[0], _INT[0], _INT_LOC[0] = None, None, False
+        return
+    _replay(case, ctx)
+
+
+def _replay(case, ctx):
     if isinstance(case, list):  # journal entries
         if case[0] == "aseq":
             case = {"kind": "aseq_all_slices", "seq": case[1], "start": case[2], "feats": case[3]}
@@ -1320,6 +2062,21 @@ def replay(case, ctx):
         check_container(ctx, case["fa"], case["fb"])
     elif k == "values":
         check_values(ctx, case["la"], case["lb"])
+    elif k == "slice_of_slice":
+        check_slice_of_slice(ctx, case["seq"], case["start"], case["feats"], tuple(case["sl1"]), tuple(case["sl"]))
+    elif k == "two_writes":
+        check_two_writes(ctx, case["seq"], case["start"], case["locs1"], case["locs2"])
+    elif k == "after_refusal":
+        locs = [l for _k, ls in case["feats"] for l in ls]
+        check_after_refusal(ctx, case["seq"], case["start"], case["feats"], locs[:2])
+    elif k == "history":
+        check_annotation_history(ctx, case["seq"], case["start"], case["fl"])
+    elif k == "alias":
+        check_aliasing(ctx, case["seq"], case["start"], case["locs"])
+    elif k in ("empty_feature", "bad_location"):
+        run_dim_empty(ctx, pal(ctx.seed))
+    elif k == "values_int":
+        run_dim_ints({"int": case["int"]}, ctx, pal(ctx.seed))
     else:
         raise ValueError(case)
 
